@@ -32,7 +32,8 @@ MinOf(S) == CHOOSE x \in S : \A y \in S : x <= y
 \* 0-based index of the first element of seq equal to v, -1 if none
 FirstIdx(seq, v) == LET S == {i \in 1..Len(seq) : seq[i] = v} IN IF S = {} THEN -1 ELSE MinOf(S) - 1
 Count(seq, P(_)) == Cardinality({i \in 1..Len(seq) : P(seq[i])})
-Map(seq, Op(_)) == [i \in 1..Len(seq) |-> Op(seq[i])]
+\* TLCEval: build the sequence once instead of re-evaluating the element expression at every access
+Map(seq, Op(_)) == TLCEval([i \in 1..Len(seq) |-> Op(seq[i])])
 RECURSIVE Flatten(_)
 Flatten(ss) == IF ss = <<>> THEN <<>> ELSE Head(ss) \o Flatten(Tail(ss))
 
@@ -71,11 +72,11 @@ ScopeEF(fef, mc, parent) == IF parent = 0 THEN fef ELSE mc[parent].ef
 ScopeDepth(mc, parent) == IF parent = 0 THEN 0 ELSE mc[parent].depth
 
 EnumCtx(f, fef, mc) ==
-  [i \in 1..Len(f.enums) |->
+  TLCEval([i \in 1..Len(f.enums) |->
      LET e == f.enums[i] IN
      [full |-> Join(ScopeFull(f, mc, e.parent), e.name),
       ef   |-> Merge(ScopeEF(fef, mc, e.parent), e.feat),
-      pos  |-> Cardinality({k \in 1..(i - 1) : f.enums[k].parent = e.parent})]]
+      pos  |-> Cardinality({k \in 1..(i - 1) : f.enums[k].parent = e.parent})]])
 
 \* full names of every other local declaration (fields, oneofs, enum values, extensions, services, methods)
 OtherNames(f, mc, ec) ==
@@ -90,7 +91,7 @@ Ctx(f, allow) ==
   LET fef == FileEF(f)
       mc == MsgCtxUpTo(f, fef, Len(f.msgs))
       ec == EnumCtx(f, fef, mc)
-  IN [fef |-> fef, mc |-> mc, ec |-> ec, others |-> OtherNames(f, mc, ec), allow |-> allow]
+  IN [fef |-> fef, mc |-> mc, ec |-> ec, others |-> TLCEval(OtherNames(f, mc, ec)), allow |-> allow]
 
 \* ---------------------------------------------------------------- name resolution (reflect/protodesc/desc_resolve.go)
 NoHit == [k |-> "", loc |-> FALSE, i |-> 0, vis |-> FALSE]
@@ -263,12 +264,12 @@ MsgView(ctx, f, i) ==
   LET m == f.msgs[i]
       mc == ctx.mc[i]
       n == Len(m.fields)
-      cores == [j \in 1..n |-> FieldCore(ctx, f, mc.full, mc.ef, m.mapentry, m.fields[j], FALSE)]
-      glikes == [j \in 1..n |-> GroupLike(m.fields[j], cores[j], FALSE, mc.full)]
-      names == [j \in 1..n |-> m.fields[j].name]
-      jsons == [j \in 1..n |-> IF m.fields[j].hj THEN m.fields[j].json ELSE JSONCamel(m.fields[j].name)]
-      texts == [j \in 1..n |-> IF glikes[j] THEN LastName(cores[j].t.msg) ELSE m.fields[j].name]
-      nums == [j \in 1..n |-> m.fields[j].num]
+      cores == TLCEval([j \in 1..n |-> FieldCore(ctx, f, mc.full, mc.ef, m.mapentry, m.fields[j], FALSE)])
+      glikes == TLCEval([j \in 1..n |-> GroupLike(m.fields[j], cores[j], FALSE, mc.full)])
+      names == TLCEval([j \in 1..n |-> m.fields[j].name])
+      jsons == TLCEval([j \in 1..n |-> IF m.fields[j].hj THEN m.fields[j].json ELSE JSONCamel(m.fields[j].name)])
+      texts == TLCEval([j \in 1..n |-> IF glikes[j] THEN LastName(cores[j].t.msg) ELSE m.fields[j].name])
+      nums == TLCEval([j \in 1..n |-> m.fields[j].num])
       K == FieldKeys(names, jsons, texts, nums, glikes)
       onames == Map(m.oneofs, LAMBDA o : o.name)
       sibNames == [k \in 1..Len(f.msgs) |-> IF f.msgs[k].parent = m.parent THEN f.msgs[k].name ELSE ""]
